@@ -22,6 +22,7 @@ missing = sorted(want - passed)
 print('== baseline on changed tree: %d/%d stable tests pass%s' % (len(want & passed), len(want), '' if not missing else ' MISSING: ' + ', '.join(missing[:5])))
 PY
 # our check
-cd /verif && VERIF_REPO=$copy ./check $id --tier quick 2>&1 | grep -v "^KNOWN-FINDING" | tail -6 | cut -c1-300
+cp -r /verif/evidence /tmp/evid_save_$$; cd /verif && VERIF_REPO=$copy ./check $id --tier quick 2>&1 | grep -v "^KNOWN-FINDING" | tail -6 | cut -c1-300
 echo "== check exit: $?"
+rm -rf /verif/evidence; mv /tmp/evid_save_$$ /verif/evidence   # the run above was on a changed tree: restore the evidence files
 rm -rf $copy
